@@ -9,7 +9,8 @@
 #include "curated.hpp"
 #include <sstream>
 
-enum { P01 = 1 << 1, P02 = 1 << 2, P03 = 1 << 3, P04 = 1 << 4, P05 = 1 << 5, P06 = 1 << 6, P07 = 1 << 7, P08 = 1 << 8, P09 = 1 << 9, P13 = 1 << 13 };
+extern "C" { extern int yaep_verif_cache_check; extern long yaep_verif_cache_hits, yaep_verif_cache_mismatches; }
+enum { P12 = 1 << 12, P01 = 1 << 1, P02 = 1 << 2, P03 = 1 << 3, P04 = 1 << 4, P05 = 1 << 5, P06 = 1 << 6, P07 = 1 << 7, P08 = 1 << 8, P09 = 1 << 9, P13 = 1 << 13 };
 
 struct GramCfg {
   std::string family;
@@ -233,8 +234,13 @@ struct GramEngine {
         if (cfg.fresh) { y = vy_create(); if (define_by_callbacks(y, g, 0) != 0) machinery_error("definition failed on a fresh object"); }
         apply_flags(y, f);
         g_trk.reset();
+        long mm0 = yaep_verif_cache_mismatches, hh0 = yaep_verif_cache_hits;
+        yaep_verif_cache_check = (cfg.props & P09) ? 1 : 0;
         ParseObs o = run_parse(y, codes_in, am);
+        yaep_verif_cache_check = 0;
         rep.add("parses");
+        if (cfg.props & P09) { rep.add("c09_cache_hits_checked", yaep_verif_cache_hits - hh0); }
+        bool cache_bad = (cfg.props & P09) && yaep_verif_cache_mismatches != mm0;
         auto V = [&](const std::string &prop, const std::string &kind, const std::string &detail) {
           std::string kf = classify_known(cfg.known_enabled, prop, kind, g, w, f, R, o);
           std::string js = viol_json(prop, kind, addr, g, codes_in, fl, detail);
@@ -448,6 +454,7 @@ struct GramEngine {
         // ---- C13 (parse-level)
         if ((cfg.props & P13) && o.rc == 0) check_c13(g, y, o, d, have_den, am, w, f, V, rep);
         // ---- C09 differential
+        if (cache_bad) V("C09", "cached-set-differs", "a set taken from the (set, terminal, lookahead) cache is not the set a fresh computation produces");
         if (cfg.props & P09) {
           std::string key = std::to_string(f.one) + "." + std::to_string(f.cost) + "." + std::to_string(f.rec) + "." + std::to_string(f.match) + "." + std::to_string(am);
           std::ostringstream os;
@@ -458,7 +465,11 @@ struct GramEngine {
           if (it == c09groups.end()) c09groups[key] = {os.str(), fl};
           else {
             rep.add("c09_comparisons");
-            if (it->second.first != os.str()) V("C09", "differs-across-levels", "observation under " + fl + " differs from " + it->second.second + ": [" + os.str() + "] vs [" + it->second.first + "]");
+            if (it->second.first != os.str()) {
+              bool d20 = cfg.known_enabled.count("D20") && !o.errs.empty() && strip_idx(it->second.first) == strip_idx(os.str());
+              if (d20) { rep.add("known_D20"); rep.knownf("{\"property\":\"C09\",\"kind\":\"differs-across-levels\",\"case\":" + jstr(addr) + ",\"finding\":\"D20\"}"); }
+              else V("C09", "differs-across-levels", "observation under " + fl + " differs from " + it->second.second + ": [" + os.str() + "] vs [" + it->second.first + "]");
+            }
           }
         }
         if (cfg.fresh && !(cfg.props & P13)) vy_free(y);
@@ -587,7 +598,14 @@ struct GramEngine {
                 ChildRes cr2; Report dummy;
                 if (try_run(c3, gi, dummy, &cr2, cr.timeout ? cfg.timeout * 10 : cfg.timeout)) {
                   if (cr.timeout) { total.add("slow_cases"); continue; }
-                  machinery_error("case failed once and passed on replay (nondeterminism): gi=" + std::to_string(gi) + " in=" + c3.only_in + " fl=" + c3.only_fl);
+                  // The harness has no clock, randomness or threads: a crash that does not repeat on the same
+                  // case means the library corrupted memory (e.g. a double free that the allocator only
+                  // sometimes notices).  It is reported, marked as not reproducible.
+                  single = found = true;
+                  cr.err_tail = "(crashed once, passed on replay - memory corruption with allocator-dependent effect) " + cr.err_tail;
+                  if (reported++ < 10) report_crash(gi, c3, cr, total);
+                  total.add("crashes_not_reproduced_on_replay");
+                  continue;
                 }
                 single = found = true;
                 if (reported++ < 10) report_crash(gi, c3, cr2, total); else total.add("crash_cases_not_reported");
@@ -642,6 +660,86 @@ struct GramEngine {
   static void parse_flags(const std::string &s, Flags &f) { sscanf(s.c_str(), "la%d.one%d.cost%d.rec%d.m%d.d%d", &f.la, &f.one, &f.cost, &f.rec, &f.match, &f.debug); }
 };
 
+// ---- C09: exhaustively generated repetitive inputs (many repeated fragments, hundreds to thousands of tokens)
+struct RepSpec { int cur; std::vector<std::string> frags; std::string join; std::vector<std::string> bad; };
+static std::vector<int> toks_of(const std::string &s) { std::vector<int> v; for (char c : s) v.push_back((unsigned char) c); return v; }
+static std::string obs_digest(const ParseObs &o, int ntoks, bool with_tree, bool loose = false) {
+  std::ostringstream os;
+  os << "rc=" << o.rc << " amb=" << o.amb << " root=" << (o.root ? 1 : 0);
+  for (auto &e : o.errs) os << " err(" << e.err << "@" << e.err_a << "," << e.ign << "," << e.rec << ")";
+  if (with_tree && o.rc == 0 && o.root) { DenRes d = denote(o.root, ntoks, true); size_t h = 1469598103934665603ULL; for (auto &t0 : d.trees) { std::string t = loose ? strip_idx(t0) : t0; for (char c : t) h = (h ^ (unsigned char) c) * 1099511628211ULL; } os << " trees=" << d.trees.size() << "#" << h; for (auto &s : d.shape) os << " shape:" << s; if (d.capped) os << " capped"; }
+  return os.str();
+}
+static void run_repetitive(int shard, int nshards, int r, int target_len, const std::set<std::string> &known, Report &rep) {
+  std::vector<Gram> cur = curated_grammars();
+  std::vector<RepSpec> specs = {
+    {0, {"a", "a+a", "(a)", "a*a", "(a+a)*a"}, "+", {")", "+", "(", ""}},
+    {1, {"a", "a+a", "a*a"}, "*", {"+", ""}},
+    {13, {"x", "x,x"}, ",", {",", ""}},
+    {14, {"x", "x,x"}, ",", {",", ""}},
+    {10, {"x;", "x;x;"}, "", {"x", ";", "xx;", ""}},
+  };
+  long idx = 0;
+  for (auto &sp : specs) {
+    const Gram &g = cur[sp.cur];
+    // all concatenations of 1..r fragments (with joiner), optionally one bad fragment inserted at each position
+    std::vector<std::vector<int>> seqs; std::vector<int> c(1, 0);
+    for (int len = 1; len <= r; len++) { c.assign(len, 0); for (;;) { seqs.push_back(c); int k = len - 1; while (k >= 0 && ++c[k] == (int) sp.frags.size()) { c[k] = 0; k--; } if (k < 0) break; } }
+    for (auto &sq : seqs) for (size_t bi = 0; bi < sp.bad.size(); bi++) for (size_t bpos = 0; bpos <= (sp.bad[bi].empty() ? 0 : sq.size()); bpos++) {
+      if ((idx++ % nshards) != shard) continue;
+      std::string unit;
+      for (size_t k = 0; k < sq.size(); k++) { if (k == bpos && !sp.bad[bi].empty()) unit += sp.bad[bi]; if (k) unit += sp.join; unit += sp.frags[sq[k]]; }
+      if (bpos == sq.size() && !sp.bad[bi].empty()) unit += sp.bad[bi];
+      for (int tl : {0, target_len}) {
+        if (getenv("VERIF_TRACE")) { fprintf(stderr, "rep cur=%d unit=%s tl=%d\n", sp.cur, unit.c_str(), tl); }
+        // long form: the (possibly offending) unit once, then clean periods: recurring errors closer than
+        // recovery_match tokens make yaep's recovery search exponential (known finding D33), so dense errors
+        // are only explored on the short forms
+        std::string clean; for (size_t k = 0; k < sq.size(); k++) { if (k) clean += sp.join; clean += sp.frags[sq[k]]; }
+        std::string text = unit;
+        while ((int) text.size() < tl) text += sp.join + clean;
+        std::vector<int> in = toks_of(text);
+        bool ok_codes = true; for (int t : in) { bool f = false; for (auto &tt : g.terms) if (tt.second == t) f = true; if (!f) ok_codes = false; }
+        if (!ok_codes) machinery_error("repetitive input uses an undeclared code: " + text);
+        std::string first, firstfl, first_loose;
+        for (int one : {1, 0}) {
+          if (!one && (int) in.size() > 14) continue;   // all-parses DAG expansion only on the short forms
+          first.clear();
+          for (int la : {0, 1, 2}) {
+            void *y = vy_create();
+            if (define_by_callbacks(y, g, 0) != 0) machinery_error("curated grammar rejected");
+            Flags f; f.la = la; f.one = one; f.rec = 1; f.match = 3; apply_flags(y, f);
+            g_trk.reset();
+            long mm0 = yaep_verif_cache_mismatches, hh0 = yaep_verif_cache_hits;
+            yaep_verif_cache_check = 1;
+            ParseObs o = run_parse(y, in, 0);
+            yaep_verif_cache_check = 0;
+            rep.add("parses"); rep.add("inputs"); rep.add("c09_long_tokens", (long) in.size());
+            rep.add("c09_cache_hits_checked", yaep_verif_cache_hits - hh0);
+            std::string addr = "repetitive cur=" + std::to_string(sp.cur) + " la=" + std::to_string(la) + " one=" + std::to_string(one) + " len=" + std::to_string(in.size());
+            auto V = [&](const std::string &kind, const std::string &detail) { rep.viol("{\"property\":\"C09\",\"kind\":" + jstr(kind) + ",\"engine\":\"gram\",\"case\":" + jstr(addr) + ",\"grammar\":" + jstr(gram_to_string(g)) + ",\"tokens\":" + jstr(text.substr(0, 300)) + ",\"detail\":" + jstr(detail) + "}"); };
+            if (yaep_verif_cache_mismatches != mm0) V("cached-set-differs", "a cached successor set differs from the freshly computed one (" + std::to_string(yaep_verif_cache_mismatches - mm0) + " of " + std::to_string(yaep_verif_cache_hits - hh0) + " hits) on input " + text.substr(0, 200));
+            std::string dg = obs_digest(o, (int) in.size(), true);
+            if (first.empty()) { first = dg; firstfl = addr; first_loose = obs_digest(o, (int) in.size(), true, true); }
+            else {
+              rep.add("c09_comparisons");
+              if (dg != first) {
+                // D20 class: recovered parse, observations equal once the attribute index of TERM nodes is ignored
+                bool d20 = known.count("D20") && !o.errs.empty() && obs_digest(o, (int) in.size(), true, true) == first_loose;
+                if (d20) { rep.add("known_D20"); rep.knownf("{\"property\":\"C09\",\"kind\":\"differs-across-levels\",\"case\":" + jstr(addr) + ",\"finding\":\"D20\"}"); }
+                else V("differs-across-levels", "observation [" + dg.substr(0, 300) + "] differs from [" + first.substr(0, 300) + "] of " + firstfl + " on input " + text.substr(0, 200));
+              }
+            }
+            if (!o.errs.empty()) rep.add("c09_long_inputs_with_recovery");
+            vy_free(y);
+          }
+        }
+      }
+      if (rep.samples.size() < 3) rep.sample("{\"grammar\":" + jstr(gram_to_string(g)) + ",\"unit\":" + jstr(unit) + ",\"extended_to_tokens\":" + std::to_string(target_len) + "}");
+    }
+  }
+}
+
 static FamilySpec family_spec(const std::string &name) {
   if (name == "q") return FamilySpec{2, 2, 3, 2, 7, false};
   if (name == "qe") return FamilySpec{2, 2, 3, 2, 7, true};
@@ -678,6 +776,15 @@ int eng_gram_main(int argc, char **argv) {
   c.only_gi = a.geti("gi", -1);
   c.only_tm = a.get("otm", ""); c.only_in = a.get("in", ""); c.only_fl = a.get("fl", "");
   c.only_cm = (int) a.geti("ocm", -1); c.only_ov = (int) a.geti("oov", -1); c.only_am = (int) a.geti("oam", -1);
+  if (c.family == "rep") {
+    int si = 0, sn = 1; sscanf(a.get("shard", "0/1").c_str(), "%d/%d", &si, &sn);
+    Report total;
+    int r = (int) a.geti("r", 3), tl = (int) a.geti("len", 300);
+    ChildRes cr = run_child([&](Report &rp) { run_repetitive(si, sn, r, tl, c.known_enabled, rp); }, total, 3000);
+    if (!cr.ok) total.viol("{\"property\":\"C09\",\"kind\":\"crash\",\"engine\":\"gram\",\"case\":\"repetitive inputs\",\"grammar\":\"\",\"tokens\":\"\",\"detail\":" + jstr(child_failure_text(cr) + "; stderr: " + cr.err_tail.substr(0, 1500)) + "}");
+    total.write_json(a.get("out", "/dev/stdout"), ",\n \"deadline_hit\": false");
+    return 0;
+  }
   if (c.family == "cur") E.curated = curated_grammars();
   else E.fam = new Family(family_spec(c.family));
   if (a.has("count")) { printf("%zu\n", E.n_skels()); return 0; }
